@@ -21,7 +21,7 @@ CHECK = {
         {"fn": P + "vC33_batches", "cases": {"actors": [0, 2, 3], "grains": [0, 1, 3], "sent": [0, 1, 3]}, "cover_optional": ("some-sent-some-unsent",)},
         {"fn": P + "vC33_relocator4", "tiers": ("quick",), "replay": "model-only", "opts": {"substitute": RELOCATOR_SUBST, "stub": [M + "supervisor.NewSupervisor"]}},
         {"fn": P + "vC33_relocator5", "tiers": ("thorough",), "replay": "model-only", "opts": {"substitute": RELOCATOR_SUBST, "stub": [M + "supervisor.NewSupervisor"]}},
-        {"fn": P + "vC33_share", "replay": "model-only", "opts": {"substitute": SHARE_SUBST}, "cases": {"actors": [0, 1, 2], "grains": [0, 1, 2]}},
+        {"fn": P + "vC33_share", "replay": "model-only", "opts": {"substitute": SHARE_SUBST, "feas_from_iter": 1, "feasibility": "light", "unwind": 6, "loop_bounds": {P + "vC33_share": 16}}, "cases": {"actors": [0, 1, 2], "grains": [0, 1, 2]}},
     ],
     "replace": [{"file": "actor/relocation_worker.go", "old": "defaultRelocationBatchSize = 500", "new": "defaultRelocationBatchSize = 1"}],
     "opts": {"unwind": 16, "birth_guard_stores": True, "map_range": "per_entry", "map_dedup": True, "feas_from_iter": 100},
